@@ -46,8 +46,15 @@ def propagate(r0, v0, dt, mu, reduce_period=True):
     sq = math.sqrt(mu)
 
     def F(x):
-        z = alpha * x * x
-        return r0n * vr0 / sq * x * x * stumpff_C(z) + (1 - alpha * r0n) * x ** 3 * stumpff_S(z) + r0n * x - sq * dt
+        # strictly increasing in x; overflow of cosh/sinh for hyperbolas far beyond the root => +-inf
+        try:
+            z = alpha * x * x
+            val = r0n * vr0 / sq * x * x * stumpff_C(z) + (1 - alpha * r0n) * x ** 3 * stumpff_S(z) + r0n * x - sq * dt
+        except OverflowError:
+            return math.copysign(math.inf, x)
+        if not math.isfinite(val):
+            return math.copysign(math.inf, x)
+        return val
 
     def dF(x):  # = r(x) > 0
         z = alpha * x * x
@@ -56,6 +63,9 @@ def propagate(r0, v0, dt, mu, reduce_period=True):
     # F is strictly increasing (dF = r > 0): bracket then safeguarded Newton
     sgn = 1.0 if dt > 0 else -1.0
     step = sq * abs(dt) / r0n if alpha <= 0 else sq * abs(alpha) * abs(dt)
+    if alpha < 0:
+        # hyperbola: chi grows like log(dt); start the bracket at sqrt(-a) (z = -1) instead of sqrt(mu)|dt|/r0
+        step = min(step, 1.0 / math.sqrt(-alpha))
     step = max(step, 1e-3)
     lo, hi = (0.0, sgn * step) if sgn > 0 else (sgn * step, 0.0)
     for _ in range(200):
@@ -74,6 +84,9 @@ def propagate(r0, v0, dt, mu, reduce_period=True):
             hi = x
         else:
             lo = x
+        if math.isinf(fx):
+            x = 0.5 * (lo + hi)
+            continue
         d = dF(x)
         xn = x - fx / d if d != 0 else 0.5 * (lo + hi)
         if not (lo <= xn <= hi):
